@@ -60,6 +60,31 @@ pub(super) fn validate_type_conditions(
                 )));
             }
         }
+        TypeId::Object(object_id) => {
+            // An object can only be refined to an interface it implements or a union it is part of.
+            let is_valid = match selected_type {
+                TypeId::Interface(interface_id) => query
+                    .schema
+                    .get_object(object_id)
+                    .implements_interfaces
+                    .contains(&interface_id),
+                TypeId::Union(union_id) => query
+                    .schema
+                    .get_union(union_id)
+                    .variants
+                    .iter()
+                    .any(|variant| *variant == parent_schema_type_id),
+                _ => false,
+            };
+
+            if !is_valid {
+                return Err(QueryValidationError::new(format!(
+                    "The spread {}... on {} is not valid.",
+                    parent_schema_type_id.name(query.schema),
+                    selected_type.name(query.schema),
+                )));
+            }
+        }
         _ => (),
     }
 
